@@ -59,7 +59,7 @@ class Ev:
 
 
 class PathState:
-    __slots__ = ('env', 'shape', 'conds', 'events', 'weak', 'alias', 'expr', 'kw')
+    __slots__ = ('env', 'shape', 'conds', 'events', 'weak', 'alias', 'expr', 'kw', 'ret_kw')
 
     def __init__(self):
         self.env = {}
@@ -70,6 +70,7 @@ class PathState:
         self.alias = {}     # local name -> field whose container (or element container) it IS
         self.expr = {}      # local name -> AST of its (pure, call-free) defining expression: temporaries in tests
         self.kw = {}        # local dict name -> {constant key: constant value or '?'} written on this path (**kwargs plumbing)
+        self.ret_kw = None  # content of the dict a helper that was just spliced returned (consumed by the assignment)
 
     def copy(self):
         p = PathState()
@@ -1134,10 +1135,18 @@ class Interp:
                 yield back, 'loopcut'
                 continue
             rt, rs = frozenset(), NONE
+            ret_node = None
             for e in reversed(cstate.events):
                 if e.kind == 'RETURN' and e.depth == len(self.stack):
                     rt, rs = e.b or frozenset(), (e.x or {}).get('shape', OTHER)
+                    ret_node = (e.x or {}).get('node')
                     break
+            # keyword dictionaries are objects: what the helper wrote into a dict it was handed is visible in the caller's
+            # dict, and a dict it returns carries its content to whatever the caller binds it to
+            for p_, a_ in list(zip(params, call.args)) + [(k.arg, k.value) for k in call.keywords if k.arg]:
+                if isinstance(a_, ast.Name) and p_ in cstate.kw and (a_.id in back.kw or cstate.kw[p_]):
+                    back.kw[a_.id] = dict(cstate.kw[p_])
+            back.ret_kw = kw_of_expr(cstate, ret_node) if ret_node is not None else {}
             if awaited and (callee.is_coro or awaited != 'yieldfrom'):
                 # (a plain generator driven by `yield from` suspends only where its own body yields)
                 back.events.append(self._mk(Ev('SUS', call.lineno, src(call), rt, 'spliced',
@@ -1246,6 +1255,9 @@ class Interp:
                 def cont(s, rt, rs):
                     for t in targets:
                         self.assign(s, t, rt, n.lineno, None, rs)
+                        if isinstance(t, ast.Name) and s.ret_kw:
+                            s.kw[t.id] = dict(s.ret_kw)
+                    s.ret_kw = None
                     yield s, 'next'
                 yield from self.splice(st, tsc[0], tsc[1], tsc[2], cont)
                 return
